@@ -147,7 +147,7 @@ func sanitize(s string) string {
 }
 
 func childEnv(b Batch, dir string) []string {
-	keep := []string{"PATH", "HOME", "TMPDIR", "GOMAXPROCS", "LANG"}
+	keep := []string{"PATH", "HOME", "TMPDIR", "GOMAXPROCS", "LANG", "VERIF_REPO_EFFECTIVE", "GOCACHE", "GOMODCACHE", "GOPATH"}
 	var env []string
 	for _, k := range keep {
 		if v, ok := os.LookupEnv(k); ok {
